@@ -165,7 +165,9 @@ RecordEdits == [
   remove_first_required_field |-> <<<<FA, FB, FC, FD>>, <<FB, FC, FD>>>>,
   remove_last_required_field |-> <<<<FA, FB, FC, FD>>, <<FA, FB, FC>>>>,
   remove_last_two_fields |-> <<<<FA, FB, FC, FD>>, <<FA, FB>>>>,
-  add_first_required_field |-> <<<<FA, FB, FC, FD>>, <<FZ, FA, FB, FC, FD>>>> ]
+  add_first_required_field |-> <<<<FA, FB, FC, FD>>, <<FZ, FA, FB, FC, FD>>>>,
+  \* the record is renamed and the old name kept as an alias ("Example: Renaming a Record"): nothing changes for the data
+  rename_with_alias |-> <<<<FA, FB, FC>>, <<FA, FB, FC>>>> ]
 
 Names(fs) == { fs[i].n : i \in 1..Len(fs) }
 ByName(fs, n) == fs[CHOOSE i \in 1..Len(fs) : fs[i].n = n]
@@ -189,6 +191,13 @@ ASSUME \A e \in DOMAIN RecordEdits : LET o == RecordEdits[e][1] n == RecordEdits
           \A v \in {Sample(o), Zeroed(o)} : \A f \in Names(o) \cap Names(n) : ConvRec(n, o, ConvRec(o, n, v))[f] = v[f]
 ASSUME \A e \in TypeEdits : \A v \in OldVals(e) : Up(e, v).s = "ok" => (Down(e, Up(e, v).v).s = "any" \/ Down(e, Up(e, v).v) = Ok(v))
 
+\* ---- enum values added: old symbols mean the same in both directions; a new symbol written for the old version is unknown there
+EnumCases == { [edit |-> "enum_add_value", pos |-> p,
+                up |-> { [in |-> v, out |-> LET F(y) == Ok(y) IN Lift(p, F, v)] : v \in StepVals(p, Ls({"e:red", "e:green"})) },
+                down |-> { [in |-> v, out |-> LET F(y) == IF y = L("e:black") THEN ANY ELSE Ok(y) IN Lift(p, F, v)]
+                           : v \in StepVals(p, Ls({"e:red", "e:black"})) }]
+               : p \in {"step", "stream_item", "field", "vector_item", "optional"} }
+
 \* ---- steps appended to the protocol: reading an old stream they are empty / null; writing for the old version they are dropped
 StepEdits == [add_stream_step |-> [decl |-> "stream_int", absent |-> V(<<>>), sample |-> V(<<L("i:1"), L("i:2")>>)],
               add_vector_step |-> [decl |-> "vector_int", absent |-> V(<<>>), sample |-> V(<<L("i:1"), L("i:2")>>)],
@@ -198,4 +207,5 @@ ASSUME PrintT(<<"type cases", Cardinality(TypeCases), "record cases", Cardinalit
 ASSUME ndJsonSerialize(IOEnv.VERIF_OUT_TYPES, SetToSeq({ [c EXCEPT !.up = SetToSeq(c.up), !.down = SetToSeq(c.down)] : c \in TypeCases }))
 ASSUME ndJsonSerialize(IOEnv.VERIF_OUT_RECS, SetToSeq({ [c EXCEPT !.up = SetToSeq(c.up), !.down = SetToSeq(c.down)] : c \in RecCases }))
 ASSUME ndJsonSerialize(IOEnv.VERIF_OUT_STEPS, <<StepEdits>>)
+ASSUME ndJsonSerialize(IOEnv.VERIF_OUT_ENUMS, SetToSeq({ [c EXCEPT !.up = SetToSeq(c.up), !.down = SetToSeq(c.down)] : c \in EnumCases }))
 =============================================================================
